@@ -22,7 +22,6 @@ COMPS = [0, 1, 2, 9, 10, 11]
 SLOW_S = 900  # generous wall-clock bound per case (shared, loaded machine)
 KEY_DESC = "dot:port-with-tag-and-own-descendant:order-dependent"
 KEY_MIXED = "cart:ports-with-mixed-tag-depths:order-dependent"
-KEY_IDX = "dot:port-with-tag-and-own-descendant:IndexError"
 KEY_NESTC = "nest:cartesian-over-inner-combinator:raises"
 
 
@@ -344,7 +343,7 @@ CORPUS = [
     ({"kind": "dot", "P": 2}, [(0, "0", 100), (1, "0", 7), (0, "0.0", 5)]),                   # the Lean witness (known finding)
     ({"kind": "dot", "P": 2}, [(0, "0", 1), (1, "0.10", 2), (1, "0.9", 3), (1, "0.1", 4)]),   # component >= 10
     ({"kind": "dot", "P": 2}, [(0, "0.10", 1), (1, "0.10.11", 2), (1, "0.1.0", 3), (0, "0.1", 4)]),
-    # the loop variable `tag` of _product is re-assigned inside `for _ in range(num_items)`: IndexError (known finding)
+    # regression streams of fix 0672c9b (before it the loop variable `tag` of _product was overwritten: IndexError)
     ({"kind": "dot", "P": 3}, [(0, "0.0.0.0", 0), (2, "0", 1), (0, "0.0.0", 2), (1, "0", 3), (0, "0.0", 4), (1, "0.0", 5), (2, "0.0.0.0", 6)]),
     ({"kind": "dot", "P": 2}, [(1, "0.10", 0), (1, "0.0.0", 1), (1, "0.0", 2), (1, "0.0.0", 3), (1, "0.0", 4), (0, "0", 5), (0, "0.0", 6), (0, "0.0.0", 7), (1, "0", 8), (0, "0.0.0", 9)]),
     ({"kind": "dot", "P": 2}, []),
@@ -403,8 +402,8 @@ class C02(Property):
                   "raises nothing and emits exactly one combination per complete received tag with the unique prefix-tagged token of every "
                   "port (values included); the cartesian product (any depth >= 1) emits exactly the cross product per key with the composite "
                   "tags; both proved about the loop-faithful model the driver runs. The full-strength statements without well-formedness are "
-                  "proved false by witnesses that reproduce on the real classes (known findings: order dependence, IndexError, mixed "
-                  "depths). Nested combinators: the two trees the CWL translator builds (outer dot over an inner depth-1 cartesian / inner dot product "
+                  "proved false by witnesses that reproduce on the real classes (known findings: order dependence, mixed depths); the dot "
+                  "product is proved never to raise on any stream (IndexError defect repaired by 0672c9b). Nested combinators: the two trees the CWL translator builds (outer dot over an inner depth-1 cartesian / inner dot product "
                   "plus plain ports) are proved by composition; other depth-2 trees only at the outer level + correspondence/monitor; a "
                   "cartesian product over an inner combinator crashes on the real class (known finding)")
     level_note = ("Lean kernel, axioms within {propext, Classical.choice, Quot.sound}; theorems are about the Lean models in SFV/Model/Comb.lean "
@@ -470,9 +469,11 @@ class C02(Property):
             exc = next(((o, e) for o, e in zip(ords, errs) if e is not None), None)
             if exc is not None:
                 ctx.count(f"{kind}:nonwf:exception:{exc[1]}")
-                if kind == "dot" and not dup:
-                    ctx.fail(KEY_IDX, f"dot product over {shape['P']} ports, stream {S} (a port carries a tag and descendants of it), arrival order "
-                                      f"{list(exc[0])}: combine() raised {exc[1]} after {len(results[ords.index(exc[0])][0])} emissions",
+                if kind == "dot":
+                    # the dot product never raises, on any stream (Lean: dot_never_raises; defect repaired by 0672c9b)
+                    ctx.fail(f"dot:exception:{exc[1]}",
+                             f"dot product over {shape['P']} ports, stream {S}, arrival order {list(exc[0])}: combine() raised {exc[1]} "
+                             f"after {len(results[ords.index(exc[0])][0])} emissions",
                              {"shape": shape, "stream": S, "orders": [list(exc[0])]})
             dep = next((o for o, c, e in zip(ords, cans, errs) if c != cans[0] or e != errs[0]), None)
             if dep is not None:
@@ -731,8 +732,8 @@ class C02(Property):
             if wfok and (err is not None or canon(out) != spec):
                 ctx.fail(f"{kind}:wf:not-the-specified-combinations", f"order {list(o)} emits {canon(out)}, specified {spec}", r)
         cans = [canon(out) for out, _ in results]
-        if not wfok and kind == "dot" and not has_dup(ports, S) and any(e is not None for _, e in results):
-            ctx.fail(KEY_IDX, f"combine() raised {[e for _, e in results if e][0]}", r)
+        if kind == "dot" and any(e is not None for _, e in results):
+            ctx.fail(f"dot:exception:{[e for _, e in results if e][0]}", f"combine() raised {[e for _, e in results if e][0]}", r)
         if not wfok and any(c != cans[0] for c in cans) and not has_dup(ports, S):
             ctx.fail(KEY_DESC if kind == "dot" else KEY_MIXED, f"orders emit different multisets: {cans}", r)
 
